@@ -531,6 +531,9 @@ func replay(e *vh.Env, arg string) {
 		}
 		return r
 	}
+	if replayRev(e, parts[0], parts[1]) {
+		return
+	}
 	switch parts[0] {
 	case "marshal":
 		var ws [16]uint64
@@ -1130,6 +1133,9 @@ func main() {
 		}
 		if want("tips") {
 			g.genLists(true, emit)
+		}
+		if want("rev") || want("revs") {
+			g.genRev(emit)
 		}
 		if want("conc") {
 			g.genConcurrent(emit)
